@@ -924,6 +924,13 @@ impl<const N: usize> SubscriptionsInner<N> {
 
     /// Remove entries that every subscription has already reported on.
     fn purge_reported_changes(&mut self) {
+        if self.subscriptions_count != self.subscriptions.len() {
+            // A subscription is in flight (being primed or reported on) and is therefore
+            // not in `subscriptions`: its watermark is unknown here, and the entries
+            // recorded since its report started are still pending for it. Purge later.
+            return;
+        }
+
         if let Some(min_seen_attr_change_id) = self
             .subscriptions
             .iter()
